@@ -224,6 +224,22 @@ t2:
   ret i32 %a
 }
 
+define i32 @repeated_predecessors(i32 %a, i32 %b) {
+entry:
+  switch i32 %a, label %other [
+    i32 0, label %merge
+    i32 1, label %merge
+    i32 2, label %merge
+  ]
+other:
+  br i1 undef, label %merge, label %merge
+merge:
+  %rp1 = phi i32 [ %a, %entry ], [ %a, %entry ], [ %a, %entry ], [ 7, %other ], [ 7, %other ]
+  %rp2 = phi i32 [ %b, %other ], [ %b, %other ], [ %a, %entry ], [ %a, %entry ], [ %a, %entry ]
+  %rp3 = add i32 %rp1, %rp2
+  ret i32 %rp3
+}
+
 define void @repeated_targets(i8* %addr, i32 %a) {
 entry:
   switch i32 %a, label %c [
